@@ -53,6 +53,8 @@ type Case struct {
 	// values under the same key, and a middleware calls ParseForm first; the
 	// Query accessors speak about the URL query only.
 	Form bool `json:"form_body,omitempty"`
+	// EncKey: the key is spelled percent-encoded on the wire ("%6B" for "k").
+	EncKey bool `json:"encoded_key,omitempty"`
 }
 
 func unq(s string) string {
@@ -135,6 +137,8 @@ type seen struct {
 	pi64                        int64
 	cookie, rawCookie, missing  string
 	cookie2                     string
+	q2                          string
+	strs2                       []string
 }
 
 func checkCase(c Case) (out evid.Outcome) {
@@ -165,6 +169,12 @@ func checkCase(c Case) (out evid.Outcome) {
 		s.param, s.pi, s.pi64 = ctx.Param("v"), ctx.ParamInt("v"), ctx.ParamInt64("v")
 		s.cookie, s.rawCookie, s.missing = ctx.Cookie("ck"), ctx.Cookie("raw"), ctx.Cookie("nosuch")
 		s.cookie2 = ctx.Cookie("ck") // reading is repeatable
+		// so is reading the query, whatever the caller did with a returned list
+		for i := range s.strs {
+			s.strs[i] = "overwritten-by-caller"
+		}
+		s.q2, s.strs2 = ctx.Query("k"), ctx.QueryStrings("k")
+		s.strs = ctx.QueryStrings("k")
 		_ = ctx.Params()
 		_ = ctx.RemoteAddr()
 	})
@@ -193,9 +203,13 @@ func checkCase(c Case) (out evid.Outcome) {
 		if c.Double {
 			first = enc(enc(v))
 		}
-		parts := []string{"other=1", "k=" + first}
+		key := "k"
+		if c.EncKey {
+			key = "%6B"
+		}
+		parts := []string{"other=1", key + "=" + first}
 		for _, m := range c.More {
-			parts = append(parts, "k="+enc(unq(m)))
+			parts = append(parts, key+"="+enc(unq(m)))
 		}
 		query = strings.Join(parts, "&")
 	}
@@ -296,6 +310,9 @@ func checkCase(c Case) (out evid.Outcome) {
 		return evid.Fail("param-int64", "ParamInt64(%q) = %d, want %d", param, s.pi64, wi)
 	}
 
+	if s.q2 != s.q || fmt.Sprintf("%q", s.strs2) != fmt.Sprintf("%q", s.strs) || (len(s.strs2) > 0 && s.strs2[0] == "overwritten-by-caller") {
+		return evid.Fail("query-aliasing", "after the caller overwrote the list returned by QueryStrings, Query = %q (before %q) and QueryStrings = %q; %s", s.q2, s.q, s.strs2, desc)
+	}
 	if raw {
 		// totality and internal consistency only
 		if len(s.strs) > 0 && s.q != s.strs[0] {
@@ -497,6 +514,7 @@ func genCase(t *rapid.T) Case {
 		c.Raw = strconv.QuoteToASCII(raw)
 	}
 	c.Form = rapid.IntRange(0, 3).Draw(t, "form") == 0
+	c.EncKey = rapid.IntRange(0, 3).Draw(t, "enckey") == 0
 	if rapid.IntRange(0, 4).Draw(t, "rawck") == 0 {
 		c.RawCk = strconv.QuoteToASCII([]string{"%zz", "a b", "\"q\"", "x;y", "a=b", "%41", "\xff", "", "a+b%20c", "%4", "100%"}[rapid.IntRange(0, 10).Draw(t, "rck")])
 		if unq(c.RawCk) == "" {
